@@ -1,7 +1,10 @@
 package chainsim
 
 import (
+	"crypto/sha256"
 	"fmt"
+	"github.com/pokt-network/pocket-core/codec"
+	"os"
 	"runtime/debug"
 	"sort"
 	"strings"
@@ -46,12 +49,19 @@ type Sim struct {
 	// C22 cumulative model is drv.Cumulative; lifecycle tables
 	life *lifecycle
 
-	simSeconds float64
-	sched      map[string]int64
-	effective  map[string]bool // "height/index" of deliveries with a non-empty diff
-	addrIdx    map[string]int
-	replay     bool
-	aborted    bool
+	simSeconds   float64
+	sched        map[string]int64
+	relayEntropy int64
+	served       map[string]int
+	sessions     map[string]string
+	claims       map[string]*claimInst
+	viewCache    map[int64]*View
+	forged       map[string]string
+	dupEvidence  map[string]bool
+	effective    map[string]bool // "height/index" of deliveries with a non-empty diff
+	addrIdx      map[string]int
+	replay       bool
+	aborted      bool
 }
 
 func (s *Sim) violate(prop, oracle, subject, detail string) {
@@ -72,12 +82,15 @@ func (engine) Run(prop string, seed uint64, tier string, replay *core.Schedule) 
 		tuneForProperty(cfg, prop, r.Sub("tune"))
 	}
 	s := &Sim{prop: prop, tier: tier, cfg: cfg, res: res, txs: map[int]*TxRecord{}, byHash: map[string]*TxRecord{}, book: map[int64]*Dump{},
-		results: map[int64]*BlockResult{}, effective: map[string]bool{}, replay: replay != nil, nextID: 1, entropy: 1000, life: newLifecycle()}
-	s.node = NewNode(cfg, "primary", NewDisks(), 0, nil)
+		results: map[int64]*BlockResult{}, effective: map[string]bool{}, served: map[string]int{}, sessions: map[string]string{}, claims: map[string]*claimInst{}, forged: map[string]string{}, dupEvidence: map[string]bool{}, relayEntropy: 5000, replay: replay != nil, nextID: 1, entropy: 1000, life: newLifecycle()}
+	s.node = NewNode(cfg, "primary", NewDisks(), 0, servicerKeys(cfg))
 	s.drv = NewDriver()
 	s.drv.InitChain(s.node.InitChain())
 	s.stepNo = -1
 	for i := 0; i < warmupBlocks && !s.aborted; i++ {
+		if i == warmupBlocks-1 {
+			s.warmupParams()
+		}
 		s.execBlock(&Step{Op: "block", DtS: 900})
 	}
 	sched := &core.Schedule{Engine: "chainsim", Property: prop, Seed: seed, Tier: tier, Config: core.Enc(cfg)}
@@ -97,6 +110,7 @@ func (engine) Run(prop string, seed uint64, tier string, replay *core.Schedule) 
 		sched.Steps = append(sched.Steps, core.Enc(st))
 		s.guard(st.Op, func() { s.exec(st) })
 		res.Logf("%d %s h=%d app=%x v=%d", i, string(sched.Steps[i]), s.drv.Height, s.drv.AppHash, len(res.Violations))
+		res.Tracef("   globals upgrade=%d old=%d features=%v", codec.UpgradeHeight, codec.OldUpgradeHeight, codec.UpgradeFeatureMap)
 	}
 	s.stepNo = n
 	if !s.aborted {
@@ -110,6 +124,35 @@ func (engine) Run(prop string, seed uint64, tier string, replay *core.Schedule) 
 	res.StateFP = core.FP(fmt.Sprintf("%x", s.drv.AppHash))
 	res.Finish()
 	return sched, res
+}
+
+// warmupParams: the activation of the stake-weighting feature overwrites the four weighting
+// parameters with main-net defaults (bins of 15,000 POKT), under which every simulated stake falls
+// in bin 0 and every relay reward is zero. The DAO owner sets them back to the configuration's
+// values in the last warm-up block, so that rewards are non-zero in the era the oracles judge.
+// These transactions are a function of the configuration alone (they are not schedule steps).
+func (s *Sim) warmupParams() {
+	c := s.cfg
+	if h, ok := c.Features["RSCAL"]; !ok || h > int64(warmupBlocks-1) {
+		return
+	}
+	q := func(n int64) string { return fmt.Sprintf("%q", fmt.Sprint(n)) }
+	kv := [][2]string{
+		{"pos/ServicerStakeFloorMultiplier", q(1_000_000)},
+		{"pos/ServicerStakeWeightMultiplier", `"1.000000000000000000"`},
+		{"pos/ServicerStakeWeightCeiling", q(c.StakeMinimum + 12_000_000)},
+		{"pos/ServicerStakeFloorMultiplierExponent", `"1.000000000000000000"`},
+	}
+	if c.RSCALOn {
+		kv[1][1] = `"1.500000000000000000"`
+		kv[2][1] = q(c.StakeMinimum + 9_000_000)
+		kv[3][1] = `"0.500000000000000000"`
+	}
+	for i, e := range kv {
+		// ids and entropies outside the ranges the generator uses
+		st := &Step{Op: "tx", ID: 1_000_000 + i, Kind: "gov_param", From: c.OwnerKey, SignKey: c.OwnerKey, Sig: "ok", Fee: baseFee, Entropy: int64(900 + i), ParamKey: e[0], ParamVal: e[1], Output: -1}
+		s.submitTx(st)
+	}
 }
 
 // guard: a panic that escapes an ABCI call would crash every node at that block. No listed
@@ -163,6 +206,10 @@ func (s *Sim) exec(st *Step) {
 		}
 	case "restart":
 		s.restart()
+	case "relay":
+		s.doRelays(st)
+	case "claims":
+		s.autoClaims(st)
 	}
 }
 
@@ -282,6 +329,11 @@ func (s *Sim) execBlock(st *Step) {
 	}
 	d.Advance(spec, res)
 	s.results[h] = res
+	if os.Getenv("SIM_TRACE") != "" {
+		for i, tx := range txs {
+			s.res.Tracef("   h=%d tx%d sha=%x own=%v code=%d log=%.80s", h, i, sha256.Sum256(tx), pend[i].id == 0, res.Txs[i].Code, res.Txs[i].Log)
+		}
+	}
 	bo.finish(res)
 }
 
@@ -312,4 +364,17 @@ func sortedKeys(m map[string]int64) []string {
 	}
 	sort.Strings(k)
 	return k
+}
+
+// servicerKeys: the node keys this process serves relays for (lean pocket): every genesis node,
+// every spare key (it may stake as a node later) and one key that never stakes.
+func servicerKeys(cfg *Config) []int {
+	var out []int
+	for i := 0; i < cfg.NNodes; i++ {
+		out = append(out, nodeBase+i)
+	}
+	for i := 0; i < cfg.NSpare; i++ {
+		out = append(out, spareBase+i)
+	}
+	return append(out, 991)
 }
